@@ -86,7 +86,15 @@ def offset_pairing(ctx, rid):
         if ok:
             reach = g.reachable(st, avoid=set(good))
             between = {n for n in reach if n not in (st,) and not isinstance(n, str)}
-            risky = [n for n in between if not isinstance(n, (ast.If,)) or calls_in(n.test)]
+            def harmless(n):
+                # a test without calls, or a flag assignment built from names / constants / not / and / or only
+                if isinstance(n, ast.If):
+                    return not calls_in(n.test)
+                if isinstance(n, ast.Assign) and len(n.targets) == 1 and isinstance(n.targets[0], ast.Name):
+                    return all(isinstance(x, (ast.Name, ast.Constant, ast.UnaryOp, ast.Not, ast.BoolOp, ast.And, ast.Or,
+                                              ast.Load)) for x in ast.walk(n.value))
+                return False
+            risky = [n for n in between if not harmless(n)]
             ok = not risky
         ctx.inst(rid, fn, st, ok,
                  "%s popped and stored back under the same key on every path, with nothing in between that "
